@@ -90,8 +90,8 @@ CHECKS['C01'] = dict(
         'staged form, tunnel_dns via its staged form) proved to update their reassembly state exactly as the rules prescribe and to deliver exactly on "accepted and last flag"; the composed model '
         '(Tunnel.v = Client.v + Server.v + network) is run against the two real programs on random fault schedules over all configurations, '
         'and an implementation-level oracle (real zlib) checks every tun write against the packets offered at the peer.',
-   note='Trusts: the rest of the abstraction from Server.v/Client.v to ProtoUp.v/ProtoDown.v (ghost packet numbers, the message bag, the sender side '
-        'bookkeeping of client send_chunk / td_up are by inspection; the reassembly steps and the server ack rule are proved); zlib as an oracle (unz (zc p) = Some p); one client session; Coq kernel; translator; extraction; gcc.',
+   note='Trusts: the rest of the abstraction from Server.v/Client.v to ProtoUp.v/ProtoDown.v (ghost packet numbers, the message bag and the chunk '
+        'construction of client send_chunk are by inspection; the reassembly steps and both ack rules are proved); zlib as an oracle (unz (zc p) = Some p); one client session; Coq kernel; translator; extraction; gcc.',
    technique='Coq proof (inductive invariant over an adversarial-network transition system, both directions) + refutation witness outside the hypothesis; whole-system differential correspondence and integrity oracle',
    design='4/C01')
 CHECKS['C10'] = dict(
